@@ -11,7 +11,7 @@ def plan(tier, seed):
         lens, cap, tails, ctxs, nlens = [0, 1, 2], 3, ['', ' t'], range(8), [1]
     else:
         shapes = [(0, 1), (1, 0), (1, 1), (0, 2), (2, 1), (1, 2), (2, 2), (3, 1), (0, 3), (1, 3), (0, 4), (3, 2)]
-        lens, cap, tails, ctxs, nlens = [0, 1, 2, 3], 5, ['', ' t', '{u}'], range(8), [1, 2]
+        lens, cap, tails, ctxs, nlens = [0, 1, 2, 3], 4, ['', ' t', '{u}'], range(8), [1, 2]
     for ci in ctxs:
         for nb, nc in shapes:
             if ci == 6 and nb > 0:
